@@ -27,6 +27,8 @@ def run(tier):
     # Store: truncate + write pointer
     good &= expect("Store AtomicPointer=FALSE violates PointerNeverBroken",
                    vlib.tlc("mc/MCStore", store.mc_cfg(2, 5, atomic=False), workers=4), "PointerNeverBroken")
+    good &= expect("StoreAges AtomicPointer=FALSE violates NextRunPossible (histories of every length)",
+                   vlib.tlc("StoreAges", "CONSTANTS N = 3\n AtomicPointer = FALSE\nSPECIFICATION Spec\nINVARIANTS NextRunPossible\nCHECK_DEADLOCK FALSE\n", workers=2), "NextRunPossible")
     # Logs: partial buffer dropped at a tick
     good &= expect("Logs PartialSurvivesTick=FALSE violates ByteExact",
                    vlib.tlc("mc/MCLogs", logs.logs_cfg(2, 2, survives=False), workers=4), "ByteExact")
